@@ -450,6 +450,14 @@ impl Impl {
                 if pb.len() != usize::from(hd.padding_length) || pb.iter().any(|&b| b != 0) { return Some("padding_bytes-wrong".into()); }
                 format!("{} {}", hd.content_length, hd.padding_length)
             }
+            ["hdr.setlen2", c1, c2] => {   // the same header value used for two records in a row
+                let mut hd = fcgi::RecordHeader::new(fcgi::RecordType::Stdout, 1);
+                hd.set_lengths(c1.parse().ok()?);
+                hd.set_lengths(c2.parse().ok()?);
+                let pb = hd.padding_bytes();
+                if pb.len() != usize::from(hd.padding_length) || pb.iter().any(|&b| b != 0) { return Some("padding_bytes-wrong".into()); }
+                format!("{} {}", hd.content_length, hd.padding_length)
+            }
             ["begin.dec", h] => {
                 let Some(a8) = arr8(&unhex(h)) else { return Some("short".into()) };
                 match fcgi::body::BeginRequest::from_bytes(a8) {
